@@ -23,7 +23,9 @@ CLEANUP = []
 
 def _scratch():
     root = os.environ.get("VERIF_SCRATCH") or ("/dev/shm" if os.path.isdir("/dev/shm") else None)
-    return tempfile.mkdtemp(prefix="c13-", dir=root)
+    from hv.core import case_dir
+
+    return case_dir("c13", root)
 
 
 def cleanup():
